@@ -866,12 +866,12 @@ def register_stop_and_startup(reg):
         unsat = 1 in MD.picked(I, "temporal requirement")
         # (1e) "first recursively stop any sub-scenarios it is running, then revert the effects of any override statements"
         eng.check(f"{name}#ensures.1e_running_monitors_and_sub_scenarios_stopped_then_overrides_reverted", ks[:3] == ["stop monitor", "stop subscenario", "revert"] and ev[0][1] == "running monitor" and ev[1][1] == "running sub-scenario" and ev[2][1] is env.vars["_oldvals"])
-        eng.check(f"{name}#ensures.1e_sub_scenarios_stopped_as_quietly_as_the_parent", ev[1][2] is quiet)
+        eng.check(f"{name}#ensures.1e_sub_scenarios_stopped_as_quietly_as_the_parent", len(ev) > 1 and ev[1][0] == "stop subscenario" and ev[1][2] is quiet)
         eng.check(f"{name}#ensures.scenario_marked_stopped_and_removed_from_the_running_list", self.fields["_isRunning"] is False and self not in MD.current_state(I).get("runningScenarios").items and self.fields["_runningIterator"] is None)
         # "Next, check if any of its temporal requirements were not satisfied: if so, reject the simulation" -- after the clean-up, and never for a quiet stop
         rejected = outcome[0] == "raise"
         eng.check(f"{name}#ensures.1e_rejects_iff_a_temporal_requirement_is_unsatisfied_and_the_stop_is_not_quiet", rejected == (unsat and not quiet))
-        eng.check(f"{name}#ensures.recordings_ended_after_the_scenario_stopped_and_cancelled_on_rejection_or_quiet_stop", ks[3:] == ["end recording"] and ev[3][1] is (quiet or (unsat and not quiet)) and ev[3][2] is False)
+        eng.check(f"{name}#ensures.recordings_ended_after_the_scenario_stopped_and_cancelled_on_rejection_or_quiet_stop", ks[3:] == ["end recording"] and len(ev) > 3 and ev[3][1] is (quiet or (unsat and not quiet)) and ev[3][2] is False)
         if not rejected:
             eng.check(f"{name}#ensures.returns_the_reason", outcome[1] == "finished compose block")
 
